@@ -15,7 +15,7 @@ TECH = {
  "C09": "classification of clean exits by edge cutting (reachability); error-value escape; dominance ordering in Close; path-pruned reachability of the batch function's success returns without a completed batch",
  "C10": "frozen wire-constant table of format 6 compared with type-checked constant values, call-site constants and literal-table digests",
  "C11": "dominance ordering of the range tests in decode; normalised comparison operators with bounds followed through task fields (no narrowing conversion); loop-exit condition of the batch loop; success returns of the batch function only behind a completed batch",
- "C12": "switch-table extraction and pairing of encoder/decoder factory cases; frozen wire constants of the entropy package; finite decision-table comparison of the payload-present condition of encoder and decoder of the static-model codecs (guided CFG walk per (symbols, order) cell)",
+ "C12": "switch-table extraction and pairing of encoder/decoder factory cases; frozen wire constants of the entropy package; finite decision-table comparison of the payload-present condition of encoder and decoder of the static-model codecs (guided CFG walk per (symbols, order) cell); agreement of the receiver-derived state carried around the chunk loop",
  "C13": "alias (may-refer-to) flow from every Forward src parameter to write sinks; phi analysis of the sequence's error edge",
  "C14": "entry-test and closed-state store checks on the bitstream implementations; affine-equality abstract interpretation (Karr domain, generator form) of the counter fields over the bitstream methods with inlined helpers, specs for the exported operations and error-outcome partitioning",
  "C15": "switch-table extraction (bijection, upper-casing, constructors); taint from context codec names to case-sensitive comparisons; frozen set of name tests; producer/consumer agreement of the context keys codec variants are selected from",
